@@ -730,62 +730,38 @@ pub fn parse_variable_type(tuple: &Pair<Rule>) -> Result<VariableKind, Compilati
 pub fn parse_iterator(iterator: &Pair<Rule>) -> Result<PreExp, CompilationError> {
     match iterator.as_rule() {
         Rule::iterator => {
-            let mut inner = iterator.clone().into_inner();
-            let first: Option<Rule> = inner.next().map(|i| i.as_rule());
-            match first {
-                Some(Rule::range_iterator) => {
-                    let inner = match iterator.clone().into_inner().next() {
-                        Some(range) => range.into_inner(),
-                        None => {
+            let inner = iterator.clone().into_inner();
+            let from = child_tagged(&inner, "from").map(parse_parameter);
+            let to = child_tagged(&inner, "to").map(parse_parameter);
+            let range_type = child_tagged(&inner, "range_type");
+            match (from, to, range_type) {
+                (Some(from), Some(to), Some(range_type)) => {
+                    let to_inclusive = match range_type.as_str() {
+                        ".." => false,
+                        "..=" => true,
+                        _ => {
                             return err_unexpected_token!(
-                                "Expected range iterator but got: {}",
-                                iterator
+                                "Expected range type but got: {}",
+                                range_type
                             );
                         }
                     };
-                    let from = child_tagged(&inner, "from").map(parse_parameter);
-                    let to = child_tagged(&inner, "to").map(parse_parameter);
-                    let range_type = child_tagged(&inner, "range_type");
-                    match (from, to, range_type) {
-                        (Some(from), Some(to), Some(range_type)) => {
-                            let to_inclusive = match range_type.as_str() {
-                                ".." => false,
-                                "..=" => true,
-                                _ => {
-                                    return err_unexpected_token!(
-                                        "Expected range type but got: {}",
-                                        range_type
-                                    );
-                                }
-                            };
-                            let span = InputSpan::from_pair(iterator);
-                            let to_inclusive = PreExp::Primitive(Spanned::new(
-                                Primitive::Boolean(to_inclusive),
-                                span.clone(),
-                            ));
-                            Ok(PreExp::FunctionCall(
-                                span,
-                                FunctionCall::new(
-                                    vec![from?, to?, to_inclusive],
-                                    "range".to_string(),
-                                    iterator.as_span(),
-                                ),
-                            ))
-                        }
-
-                        _ => err_unexpected_token!("Expected range iterator but got: {}", iterator),
-                    }
+                    let span = InputSpan::from_pair(iterator);
+                    let to_inclusive = PreExp::Primitive(Spanned::new(
+                        Primitive::Boolean(to_inclusive),
+                        span.clone(),
+                    ));
+                    Ok(PreExp::FunctionCall(
+                        span,
+                        FunctionCall::new(
+                            vec![from?, to?, to_inclusive],
+                            "range".to_string(),
+                            iterator.as_span(),
+                        ),
+                    ))
                 }
-                Some(Rule::tagged_exp) => {
-                    let mut inner = iterator.clone().into_inner();
-                    let first = inner.next();
-                    if first.is_none() {
-                        return err_unexpected_token!("Expected parameter but got: {}", iterator);
-                    }
-                    let function = parse_parameter(first.unwrap())?;
-                    Ok(function)
-                }
-
+                // no range operator: the expression itself is what is iterated
+                (Some(function), None, None) => function,
                 _ => err_unexpected_token!("Expected range or parameter but got: {}", iterator),
             }
         }
